@@ -174,6 +174,15 @@ func diffManager(w *bufio.Writer, n int, seed int64) {
 				fmt.Fprintf(w, "D %d setlen %d %d => u # -\n", c, qi, v)
 				continue
 			}
+			if r.Intn(12) == 0 && nq < 8 {
+				// a queue bound while the worker is already dispatching
+				v := r.Intn(4)
+				qm.Register(v)
+				lens = append(lens, v)
+				nq++
+				fmt.Fprintf(w, "D %d register %d => u # -\n", c, v)
+				continue
+			}
 			idx, cur, tot := qm.Next()
 			fmt.Fprintf(w, "D %d next => x:%d,%d,%d # -\n", c, idx, cur, tot)
 			if idx >= 0 {
